@@ -36,6 +36,7 @@ import (
 	"math"
 	"math/rand/v2"
 	"strings"
+	"sync"
 	"testing"
 
 	"github.com/gofrs/uuid"
@@ -342,6 +343,53 @@ func (m *c07Mon) runIter(env *Env, drivers []storeDriver) {
 			m.violate(sub, fmt.Sprintf("C07:static:%s:%s:size=%s:pages=%s", cls, d.name(), sizeClass(size, c.M), pageCountClass(len(pages))),
 				fmt.Sprintf("listing %s (%d matches, shape %s) with page size %d via %s: %s %v", descQuery(c.query), c.M, c.ShapeStr, size, d.name(), cls, det),
 				map[string]any{"page_size": size, "detail": det, "page_lengths": pageLens(pages)})
+		}
+	}
+	// --- concurrent iterations: the same unchanged rows listed by several clients
+	// at once, each with its own page size and transport; every client must get
+	// exactly what it gets alone (state shared between requests would show here)
+	if len(c.PageSizes) >= 2 {
+		type conc struct {
+			size  int
+			d     storeDriver
+			pages []pageObs
+			ans   opAnswer
+		}
+		for round := 0; round < 2; round++ {
+			var cs []*conc
+			for si, size := range c.PageSizes {
+				if len(cs) >= 8 {
+					break
+				}
+				cs = append(cs, &conc{size: size, d: drivers[(int(m.idx)+si+round)%len(drivers)]})
+			}
+			var wg sync.WaitGroup
+			start := make(chan struct{})
+			for _, k := range cs {
+				wg.Add(1)
+				go func(k *conc) {
+					defer wg.Done()
+					<-start
+					k.pages, k.ans = c07Iterate(k.d, c.query, k.size, nil)
+				}(k)
+			}
+			close(start)
+			wg.Wait()
+			for _, k := range cs {
+				run.eval(1)
+				run.count("iterations_concurrent", 1)
+				run.count("pages_fetched", int64(len(k.pages)))
+				sub := fmt.Sprintf("concurrent%d/%s/size%d", round, k.d.name(), k.size)
+				if k.ans.Class != "ok" {
+					m.violate(sub, fmt.Sprintf("C07:list-error:concurrent:%s:%s", k.d.name(), k.ans.Code), fmt.Sprintf("listing %s with page size %d via %s next to %d other clients failed after %d pages: %s %s", descQuery(c.query), k.size, k.d.name(), len(cs)-1, len(k.pages), k.ans.Code, k.ans.Text), nil)
+					continue
+				}
+				if cls, det := pagesOracle(want, k.pages, effPageSize(k.size)); cls != "" {
+					m.violate(sub, fmt.Sprintf("C07:concurrent:%s:%s:size=%s", cls, k.d.name(), sizeClass(k.size, c.M)),
+						fmt.Sprintf("listing %s (%d matches, unchanged rows) with page size %d via %s while %d other clients list the same rows with other page sizes: %s %v", descQuery(c.query), c.M, k.size, k.d.name(), len(cs)-1, cls, det),
+						map[string]any{"page_size": k.size, "detail": det, "page_lengths": pageLens(k.pages), "other_page_sizes": c.PageSizes})
+				}
+			}
 		}
 	}
 	// --- iterations under interleaved writes
